@@ -11,6 +11,10 @@
 #include "../common/verif.h"
 #include "../common/vloop.h"
 #include <tbox/event/loop.h>
+#ifndef LOG_MODULE_ID
+#define LOG_MODULE_ID "verif.c13"
+#endif
+#include <tbox/base/log_impl.h>
 #include <tbox/terminal/terminal.h>
 #include <tbox/terminal/connection.h>
 #include <tbox/terminal/session.h>
@@ -91,10 +95,37 @@ struct Rig {
   int stale_feeds = 0;
   bool settle = false;                  // socket front ends: after a segment keep running passes until no more output arrives
   std::string rig_err;                  // violation seen by the rig itself (first one)
+  // a log channel that swallows every record after reading every byte of it (without a channel LogPrintfFunc() returns
+  // before it formats anything, so whatever the terminal logs about client input would never be formatted)
+  uint32_t log_id = 0; uint64_t log_records = 0, log_bytes = 0; volatile unsigned log_sum = 0;
+  static void logSink(const LogContent *c, void *ptr) {
+    Rig *r = static_cast<Rig *>(ptr);
+    unsigned sum = 0;
+    if (c->text_ptr != nullptr) for (uint32_t i = 0; i < c->text_len; ++i) sum += (unsigned char)c->text_ptr[i];
+    if (c->module_id) sum += (unsigned char)c->module_id[0];
+    if (c->func_name) sum += (unsigned char)c->func_name[0];
+    if (c->file_name) sum += (unsigned char)c->file_name[0];
+    r->log_sum = r->log_sum + sum; ++r->log_records; r->log_bytes += c->text_len;
+  }
+  void enableLog() { if (!log_id) log_id = LogAddPrintfFunc(&Rig::logSink, this); }
+  void disableLog() { if (log_id) { LogRemovePrintfFunc(log_id); log_id = 0; } }
+  // directories the application may take away under a live session: (node, parent, name under the parent)
+  struct Dir { NodeToken node, parent; std::string name; };
+  std::vector<Dir> dirs;
+  int api_deletes = 0, api_umounts = 0;
+  // action 1..15: directory (a-1)/3 of `dirs`, mode (a-1)%3 = deleteNode | umountNode | umountNode + deleteNode.
+  // Runs on the loop thread between two segments, outside any callback (an application unloading a plug-in).
+  void apiAction(int a) {
+    if (a <= 0 || dirs.empty() || !term) return;
+    const Dir &d = dirs[(size_t)((a - 1) / 3) % dirs.size()];
+    int mode = (a - 1) % 3;
+    if (mode >= 1) { if (term->umountNode(d.parent, d.name)) ++api_umounts; }
+    if (mode != 1) { if (term->deleteNode(d.node)) ++api_deletes; }
+  }
 
   Rig() : clk(1000000) {}
   Rig(const Rig &) = delete;
-  ~Rig() { if (cfd >= 0) ::close(cfd); if (!sockpath.empty()) ::unlink(sockpath.c_str()); }
+  ~Rig() { disableLog(); if (cfd >= 0) ::close(cfd); if (!sockpath.empty()) ::unlink(sockpath.c_str()); }
 
   std::string &out() { return fe == FE_FAKE ? fake.out : sock_out; }
 
